@@ -20,7 +20,7 @@ def run(name, seed, args):
 # ------------------------------------------------------------------------------------------------ C20
 def _mk(v):
     from entity_query_language.hashed_data import HashedValue
-    return HashedValue(v, id_=hash(v))
+    return HashedValue(v, id_=hash((type(v).__name__, v)))     # equal values share an id; False, '' and () do not
 
 
 def cache_reference(keys, inserts):
@@ -80,7 +80,7 @@ def cache_case(keys, inserts, lookup):
     got = []
     for res, o in c.retrieve(dict(q)):
         got.append((tuple(sorted((k, v.value) for k, v in res.items())), o))
-    if sorted(got) != sorted(want):
+    if sorted(got, key=repr) != sorted(want, key=repr):
         missing = set(want) - set(got)
         kind = 'missing' if missing else ('extra' if set(got) - set(want) else 'multiplicity')
         sig = {'kind': kind}
@@ -99,7 +99,7 @@ def cache_case(keys, inserts, lookup):
                 return False
             sig['every_missed_entry_is_shadowed_by_a_sibling_branch'] = all(shadowed(want_paths[m]) for m in missing)
             sig['nothing_extra'] = not (set(got) - set(want))
-        return {'what': 'retrieve', 'keys': list(keys), 'inserts': history, 'lookup': lookup, 'got': sorted(got), 'want': sorted(want),
+        return {'what': 'retrieve', 'keys': list(keys), 'inserts': history, 'lookup': lookup, 'got': sorted(got, key=repr), 'want': sorted(want, key=repr),
                 'signature': sig}
     return None
 
@@ -122,8 +122,9 @@ def standin_C20_cache(seed, args):
     t0 = time.time()
     exhaustive = True
     for k in range(0, max_inserts + 1):
-        for ins0 in itertools.product(bindings, repeat=k):
-          base = [(b, f"o{i}") for i, b in enumerate(ins0)]
+        # the stored outputs: distinct truthy values, and distinct FALSY ones (the operators store False for every true row)
+        for ins0, falsy_outputs in ((i0, fo) for i0 in itertools.product(bindings, repeat=k) for fo in ((False, True) if k else (False,))):
+          base = [(b, (False, '', ())[i] if falsy_outputs else f"o{i}") for i, b in enumerate(ins0)]
           # the same history with a clear() at every position (also after the last insertion), and without one
           variants = [base] + [base[:j] + [CLEAR] + base[j:] for j in range(1, k + 1)]
           for inserts in variants:
@@ -142,7 +143,8 @@ def standin_C20_cache(seed, args):
         if not exhaustive:
             break
     return {'evaluations': n, 'exhaustive': exhaustive,
-            'scope': f"{nkeys} keys, alphabet {alphabet}, <= {max_inserts} inserts, a clear() at every position or none, every lookup",
+            'scope': f"{nkeys} keys, alphabet {alphabet}, <= {max_inserts} inserts (outputs: distinct truthy values, and distinct falsy "
+                     f"ones), a clear() at every position or none, every lookup",
             'failures': failures, 'n_failures': sum(per_sig.values()), 'failures_by_signature': per_sig}
 
 
